@@ -81,7 +81,19 @@ func fail(kind, canon, detail string) {
 		}
 	}
 	rep.Failures = append(rep.Failures, failure{kind, canon, detail})
+	if (kind == "hang" || kind == "deadlock") && !exiting {
+		// the server is wedged: everything that follows would only wait for more watchdogs; leave a few seconds for
+		// other reports to come in, then write the report and stop
+		exiting = true
+		go func() {
+			time.Sleep(8 * time.Second)
+			writeReport()
+			os.Exit(0)
+		}()
+	}
 }
+
+var exiting bool
 
 func stat(k string) {
 	repMu.Lock()
